@@ -77,27 +77,51 @@ Theorem C09_remainder_unique : forall K (fk : fieldK K) a d r r', is_rem fk a d 
 Proof. exact (@is_rem_unique). Qed.
 Print Assumptions C09_remainder_unique.
 
-(* fast_reduce, PARTIAL: the early exits are exact, and the final stage (long division by the unmultiplied modulus)
-   turns any intermediate remainder congruent to the input into THE remainder.  Not proved: that the NTT-friendly and
-   the structured chunk-wise stages preserve the congruence (C09_fast_reduce_full below stays a Definition). *)
-Theorem C09_fast_reduce_partial : forall F K (o : fops F) (fk : fieldK K) ok den, field_ok o fk ok den ->
-  forall ntt intt a m, Forall ok a -> Forall ok m -> ~ pzero fk (map den m) ->
-  ((poly_degree o m = 0 \/ poly_degree o a < poly_degree o m) ->
-   exists r, pdiv_fast_reduce o ntt intt a m = Some r /\ Forall ok r /\ is_rem fk (map den a) (map den m) (map den r)) /\
-  (forall ir, Forall ok ir -> (exists k, peq fk (map den a) (padd fk (pmul fk k (map den m)) (map den ir))) ->
-   exists r, pdiv_reduce_long_division o ir m = Some r /\ Forall ok r /\ is_rem fk (map den a) (map den m) (map den r)).
-Proof.
-  intros F K o fk ok den H ntt intt a m Ha Hm NZ. split.
-  - exact (fast_reduce_early_exits o fk ok den H ntt intt a m Ha Hm NZ).
-  - intros ir Hir Hk. exact (fast_reduce_final_stage o fk ok den H a m ir Ha Hm Hir NZ Hk).
-Qed.
-Print Assumptions C09_fast_reduce_partial.
-Definition C09_fast_reduce_full : Prop :=
-  forall F K (o : fops F) (fk : fieldK K) ok den, field_ok o fk ok den ->
-  forall (ntt intt : list F -> option (list F)),
-  (* ntt is the DFT at a primitive root of the power-of-two length, intt its inverse (the C06 theorems) *)
+(* fast_reduce and reduce return THE remainder for every non-zero modulus, through all three stages (chunk-wise reduction in
+   the NTT domain by X^n + S, chunk-wise schoolbook reduction by the structured multiple of degree 3 deg + 1, long division)
+   and every arm of the dispatcher - under the C06 hypotheses on ntt / intt: ntt is the DFT at a root `wr l` of order 2^l,
+   intt its inverse, for every length 2^l with l <= lmax (the two size bounds say that the transforms used fit below 2^lmax) *)
+Theorem C09_fast_reduce_spec : forall F K (o : fops F) (fk : fieldK K) ok den, field_ok o fk ok den ->
+  forall (ntt intt : list F -> option (list F)) (lmax : nat) (wr : nat -> K),
+  (forall l x, (l <= lmax)%nat -> length x = (2 ^ l)%nat -> Forall ok x ->
+     exists y, ntt x = Some y /\ Forall ok y /\ length y = length x /\ map den y = dft fk (wr l) (map den x)) ->
+  (forall l x, (l <= lmax)%nat -> length x = (2 ^ l)%nat -> Forall ok x ->
+     exists y, intt x = Some y /\ Forall ok y /\ length y = length x /\ map den y = idft fk (wr l) (map den x)) ->
+  (forall l, (l <= lmax)%nat -> half_root fk (wr l) l) -> (forall l, (l <= lmax)%nat -> wr l <> k0 fk) -> two_neq_0 fk ->
   forall a m, Forall ok a -> Forall ok m -> ~ pzero fk (map den m) ->
+  next_pow2 (Z.max FAST_REDUCE_CUTOFF_THRESHOLD (poly_degree o m * 2)) + 1 <= 2 ^ Z.of_nat lmax ->
+  3 * poly_degree o m + 2 <= 2 ^ Z.of_nat lmax ->
   exists r, pdiv_fast_reduce o ntt intt a m = Some r /\ Forall ok r /\ is_rem fk (map den a) (map den m) (map den r).
+Proof. exact (@fast_reduce_spec). Qed.
+Print Assumptions C09_fast_reduce_spec.
+Theorem C09_reduce_spec : forall F K (o : fops F) (fk : fieldK K) ok den, field_ok o fk ok den ->
+  forall (ntt intt : list F -> option (list F)) (lmax : nat) (wr : nat -> K),
+  (forall l x, (l <= lmax)%nat -> length x = (2 ^ l)%nat -> Forall ok x ->
+     exists y, ntt x = Some y /\ Forall ok y /\ length y = length x /\ map den y = dft fk (wr l) (map den x)) ->
+  (forall l x, (l <= lmax)%nat -> length x = (2 ^ l)%nat -> Forall ok x ->
+     exists y, intt x = Some y /\ Forall ok y /\ length y = length x /\ map den y = idft fk (wr l) (map den x)) ->
+  (forall l, (l <= lmax)%nat -> half_root fk (wr l) l) -> (forall l, (l <= lmax)%nat -> wr l <> k0 fk) -> two_neq_0 fk ->
+  forall a m, Forall ok a -> Forall ok m -> ~ pzero fk (map den m) ->
+  next_pow2 (Z.max FAST_REDUCE_CUTOFF_THRESHOLD (poly_degree o m * 2)) + 1 <= 2 ^ Z.of_nat lmax ->
+  3 * poly_degree o m + 2 <= 2 ^ Z.of_nat lmax ->
+  exists r, pdiv_reduce o ntt intt a m = Some r /\ Forall ok r /\ is_rem fk (map den a) (map den m) (map den r).
+Proof. exact (@reduce_spec). Qed.
+Print Assumptions C09_reduce_spec.
+(* the two chunk-wise stages on their own: the result is congruent to the input modulo the structured modulus *)
+Theorem C09_reduce_by_ntt_friendly_modulus : forall F K (o : fops F) (fk : fieldK K) ok den, field_ok o fk ok den ->
+  forall (ntt intt : list F -> option (list F)) (lmax : nat) (wr : nat -> K),
+  (forall l x, (l <= lmax)%nat -> length x = (2 ^ l)%nat -> Forall ok x ->
+     exists y, ntt x = Some y /\ Forall ok y /\ length y = length x /\ map den y = dft fk (wr l) (map den x)) ->
+  (forall l x, (l <= lmax)%nat -> length x = (2 ^ l)%nat -> Forall ok x ->
+     exists y, intt x = Some y /\ Forall ok y /\ length y = length x /\ map den y = idft fk (wr l) (map den x)) ->
+  (forall l, (l <= lmax)%nat -> half_root fk (wr l) l) -> (forall l, (l <= lmax)%nat -> wr l <> k0 fk) -> two_neq_0 fk ->
+  forall chk a Sp shift_ntt tail l, (l <= lmax)%nat -> Forall ok a -> Forall ok Sp ->
+  zlen Sp = Z.of_nat (2 ^ l) -> ntt Sp = Some shift_ntt -> 0 <= tail < Z.of_nat (2 ^ l) -> poly_degree o Sp < tail ->
+  exists r, pdiv_reduce_by_ntt_friendly_modulus o ntt intt chk a shift_ntt tail = Some r /\ Forall ok r /\
+            zlen r <= Z.max (zlen a) (Z.of_nat (2 ^ l)) /\
+            exists k, peq fk (map den a) (padd fk (pmul fk k (padd fk (map den Sp) (pXn fk (2 ^ l)))) (map den r)).
+Proof. exact (@reduce_by_ntt_friendly_modulus_spec). Qed.
+Print Assumptions C09_reduce_by_ntt_friendly_modulus.
 
 (* ---------------------------------------------------------------- clean_divide (the CURRENT code: both repairs) *)
 (* exact division returns that same quotient: the long-division arm, for EVERY value of the cutoff - the production
@@ -236,9 +260,25 @@ Definition C09_fpsi_newton_full : Prop :=
             pmodx fp_field (Z.to_nat n) (pmul fp_field (map bden l) (map bden g)) (pone fp_field).
 
 (* ---------------------------------------------------------------- structured multiples *)
-(* PARTIAL: the documented panics (zero polynomial, requested degree below the degree) and the constant case: a multiple
-   of degree exactly n - NOT monic unless the constant is 1 (the doc comment promises X^n + ...; callers inside the
-   crate never pass a constant).  Not proved: degree >= 1 (C09_structured_multiple_full stays a Definition). *)
+(* structured_multiple_of_degree(n) for a polynomial of degree >= 1, under the C06 hypotheses on ntt / intt (they enter
+   through C07's `multiply`): a multiple of f, monic, of degree EXACTLY n, of the documented form
+   X^n + (something of degree < deg f); structured_multiple = degree 3 deg + 1.  The documented panics.  The constant case:
+   a multiple of degree exactly n, but NOT monic unless the constant is 1 (the doc comment promises X^n + ...; callers
+   inside the crate never pass a constant). *)
+Theorem C09_structured_multiple_spec : forall F K (o : fops F) (fk : fieldK K) ok den, field_ok o fk ok den ->
+  forall (ntt intt : list F -> option (list F)) (lmax : nat) (wr : nat -> K),
+  (forall l x, (l <= lmax)%nat -> length x = (2 ^ l)%nat -> Forall ok x ->
+     exists y, ntt x = Some y /\ Forall ok y /\ length y = length x /\ map den y = dft fk (wr l) (map den x)) ->
+  (forall l x, (l <= lmax)%nat -> length x = (2 ^ l)%nat -> Forall ok x ->
+     exists y, intt x = Some y /\ Forall ok y /\ length y = length x /\ map den y = idft fk (wr l) (map den x)) ->
+  (forall l, (l <= lmax)%nat -> half_root fk (wr l) l) -> (forall l, (l <= lmax)%nat -> wr l <> k0 fk) -> two_neq_0 fk ->
+  forall l n, Forall ok l -> 1 <= poly_degree o l -> poly_degree o l <= n -> n + 1 <= 2 ^ Z.of_nat lmax ->
+  exists r, pdiv_structured_multiple_of_degree o ntt intt l n = Some r /\ Forall ok r /\
+            pdvd fk (map den l) (map den r) /\ pdeg fk (map den r) = n /\ plead fk (map den r) = k1 fk /\
+            (forall i, (Z.to_nat (poly_degree o l) <= i < Z.to_nat n)%nat -> coeff fk (map den r) i = k0 fk) /\
+            zlen r = n + 1.
+Proof. exact (@structured_multiple_dft). Qed.
+Print Assumptions C09_structured_multiple_spec.
 Theorem C09_structured_multiple_panics : forall F (o : fops F) ntt intt l n,
   (poly_degree o l < 0 \/ n < poly_degree o l) -> pdiv_structured_multiple_of_degree o ntt intt l n = None.
 Proof. exact (@structured_multiple_panics). Qed.
@@ -250,7 +290,3 @@ Theorem C09_structured_multiple_constant : forall F K (o : fops F) (fk : fieldK 
             forall c0, idx l 0 = Some c0 -> plead fk (map den r) = kinv fk (den c0).
 Proof. exact (@structured_multiple_constant). Qed.
 Print Assumptions C09_structured_multiple_constant.
-Definition C09_structured_multiple_full : Prop :=
-  forall l n, Forall canon l -> 1 <= poly_degree bfe_ops l <= n -> n < 2 ^ 30 ->
-  exists r, pdiv_structured_multiple_of_degree bfe_ops ntt_b intt_b l n = Some r /\ Forall canon r /\
-            pdvd fp_field (map bden l) (map bden r) /\ pdeg fp_field (map bden r) = n /\ plead fp_field (map bden r) = k1 fp_field.
